@@ -3,6 +3,7 @@ package conn
 import (
 	"fmt"
 	"strings"
+	"sync"
 	"testing"
 
 	"pgregory.net/rapid"
@@ -27,6 +28,9 @@ type c12Case struct {
 	// Inject: a peer that talks out of turn: just before the close a message for the newest client stream
 	// arrives, whether or not the server was ever asked for it
 	Inject bool
+	// BadMeta: just before the close the client side of the wire carries an invoke-metadata packet that does not
+	// decode (a peer talking nonsense): the server gives up the connection, and its own teardown must complete
+	BadMeta bool
 }
 
 func genC12(t *rapid.T) c12Case {
@@ -42,11 +46,12 @@ func genC12(t *rapid.T) c12Case {
 	c.Stall = rapid.IntRange(0, 2).Draw(t, "stall")
 	if rapid.IntRange(0, 2).Draw(t, "points") == 0 {
 		c.Cfg.Points = rapid.SliceOfNDistinct(rapid.SampledFrom([]string{"manager.terminate.beforeClose", "stream.Cancel.beforeLock", "stream.checkFinished", "manager.manageReader.beforeDispatch",
-			"harness.Unmarshal.holding", "stream.rawWrite.beforeFrame", "stream.Close.beforeWriteLock", "manager.newStream.beforeSet", "manager.acquireSemaphore.acquired", "manager.newStream.afterPublish", "manager.manageStream.enter"}), 1, 3, func(s string) string { return s }).Draw(t, "pts")
+			"harness.Unmarshal.holding", "stream.rawWrite.beforeFrame", "stream.Close.beforeWriteLock", "manager.newStream.beforeSet", "manager.acquireSemaphore.acquired", "manager.newStream.afterPublish", "manager.manageStream.enter", "harness.transport.closing", "harness.transport.closing"}), 1, 3, func(s string) string { return s }).Draw(t, "pts")
 		c.Cfg.PointLimit = 8
 		c.HoldPre = rapid.Bool().Draw(t, "holdpre")
 		c.Inject = rapid.Bool().Draw(t, "inject")
 	}
+	c.BadMeta = rapid.IntRange(0, 5).Draw(t, "badmeta") == 0
 	c.Choices = rapid.SliceOfN(rapid.SampledFrom(c04Kinds), 0, 60).Draw(t, "choices")
 	return c
 }
@@ -91,6 +96,14 @@ func runC12(c c12Case) (r pbt.Result) {
 		w.Quiesce()
 		injected = true
 	}
+	if c2s := w.A.Out(); c.BadMeta && c2s.Queued() == 0 && !c2s.CanAccept() {
+		// frame boundary on the client->server direction: a metadata packet for the next stream id whose body is
+		// not a metadata encoding
+		c2s.Inject(packetFramesOpt(uint64(started+1), 1, 7, false, []byte{0xff, 0xff, 0xff}, 1, false))
+		c2s.Deliver(0)
+		w.Quiesce()
+		injected = true
+	}
 	inFlight := w.InCall("c")
 	hInFlight := w.InCall("h")
 	writeParked := w.A.Out().CanAccept() || w.B.Out().CanAccept()
@@ -113,13 +126,23 @@ func runC12(c c12Case) (r pbt.Result) {
 	}
 	closeClock := w.Clock
 	clientClosed := false
+	// every Close call, when it returns, must find the transport closed already
+	var closeMu sync.Mutex
+	closesAtReturn := []int{}
+	closeAndLook := func() error {
+		err := w.Conn.Close()
+		closeMu.Lock()
+		closesAtReturn = append(closesAtReturn, w.A.ClosesDone())
+		closeMu.Unlock()
+		return err
+	}
 	switch c.Closer {
 	case "conn_close":
-		w.GoCall("closer1", "connclose", -1, w.Conn.Close)
+		w.GoCall("closer1", "connclose", -1, closeAndLook)
 		clientClosed = true
 	case "conn_close_twice":
-		w.GoCall("closer1", "connclose", -1, w.Conn.Close)
-		w.GoCall("closer2", "connclose", -1, w.Conn.Close)
+		w.GoCall("closer1", "connclose", -1, closeAndLook)
+		w.GoCall("closer2", "connclose", -1, closeAndLook)
 		clientClosed = true
 	case "server_cancel":
 		w.CancelServer()
@@ -154,6 +177,15 @@ func runC12(c c12Case) (r pbt.Result) {
 				return
 			}
 		}
+		closeMu.Lock()
+		for _, n := range closesAtReturn {
+			if n == 0 {
+				closeMu.Unlock()
+				fail("a Close call returned before the transport's Close had returned")
+				return
+			}
+		}
+		closeMu.Unlock()
 		if still := w.InCall("c"); len(still) > 0 {
 			fail("client calls still blocked after the connection was closed")
 			r.Detailf("%v", still)
@@ -255,6 +287,9 @@ func runC12(c c12Case) (r pbt.Result) {
 	}
 	if injected {
 		r.Label("peer_message_out_of_turn")
+	}
+	if c.BadMeta {
+		r.Label("peer_sent_undecodable_metadata")
 	}
 	r.Label("closer_" + c.Closer)
 	if len(inFlight) > 0 {
